@@ -318,18 +318,24 @@ PPL::Polyhedron::relation_with(const Congruence& cg) const {
       && Poly_Con_Relation::is_included()
       && Poly_Con_Relation::is_disjoint();
   }
-  // Build the equality corresponding to the congruence (ignoring the modulus).
+  // The expression of the congruence (ignoring the modulus).
   Linear_Expression expr(cg.expression());
-  const Constraint c(expr == 0);
+  PPL_DIRTY_TEMP_COEFFICIENT(modulus);
+  modulus = cg.modulus();
 
   // The polyhedron is non-empty so that there exists a point.
-  // For an arbitrary generator point, compute the scalar product with
-  // the equality.
+  // For an arbitrary generator point, compute the value of the expression
+  // on it; both the expression and the modulus are first scaled by the
+  // divisor of the point, so that this value is an integer.
   PPL_DIRTY_TEMP_COEFFICIENT(sp_point);
   for (Generator_System::const_iterator gs_i = gen_sys.begin(),
          gs_end = gen_sys.end(); gs_i != gs_end; ++gs_i) {
     if (gs_i->is_point()) {
-      Scalar_Products::assign(sp_point, c, *gs_i);
+      const Coefficient& divisor = gs_i->divisor();
+      Scalar_Products::homogeneous_assign(sp_point, expr, *gs_i);
+      add_mul_assign(sp_point, expr.inhomogeneous_term(), divisor);
+      expr *= divisor;
+      modulus *= divisor;
       expr -= sp_point;
       break;
     }
@@ -338,11 +344,10 @@ PPL::Polyhedron::relation_with(const Congruence& cg) const {
   // Find two hyperplanes that satisfy the congruence and are near to
   // the generating point (so that the point lies on or between these
   // two hyperplanes).
-  // Then use the relations between the polyhedron and the halfspaces
-  // corresponding to the hyperplanes to determine the result.
+  // Then use the relations between the polyhedron and the open halfspaces
+  // delimited by the hyperplanes to determine the result.
 
   // Compute the distance from the point to an hyperplane.
-  const Coefficient& modulus = cg.modulus();
   PPL_DIRTY_TEMP_COEFFICIENT(signed_distance);
   signed_distance = sp_point % modulus;
   if (signed_distance == 0) {
@@ -353,14 +358,14 @@ PPL::Polyhedron::relation_with(const Congruence& cg) const {
     // The point is not lying on the hyperplane.
     expr += signed_distance;
   }
-  // Build first halfspace constraint.
+  // The point lies strictly between two hyperplanes satisfying the
+  // congruence: the polyhedron is disjoint from the congruence if and
+  // only if it is included in the open strip between them.
   const bool positive = (signed_distance > 0);
-  const Constraint first_halfspace = positive ? (expr >= 0) : (expr <= 0);
+  const Constraint first_halfspace = positive ? (expr > 0) : (expr < 0);
 
   const Poly_Con_Relation first_rels = relation_with(first_halfspace);
-  PPL_ASSERT(!first_rels.implies(Poly_Con_Relation::saturates())
-             && !first_rels.implies(Poly_Con_Relation::is_disjoint()));
-  if (first_rels.implies(Poly_Con_Relation::strictly_intersects())) {
+  if (!first_rels.implies(Poly_Con_Relation::is_included())) {
     return Poly_Con_Relation::strictly_intersects();
   }
 
@@ -371,17 +376,13 @@ PPL::Polyhedron::relation_with(const Congruence& cg) const {
   else {
     expr += modulus;
   }
-  const Constraint second_halfspace = positive ? (expr <= 0) : (expr >= 0);
+  const Constraint second_halfspace = positive ? (expr < 0) : (expr > 0);
 
-  PPL_ASSERT(first_rels == Poly_Con_Relation::is_included());
   const Poly_Con_Relation second_rels = relation_with(second_halfspace);
-  PPL_ASSERT(!second_rels.implies(Poly_Con_Relation::saturates())
-             && !second_rels.implies(Poly_Con_Relation::is_disjoint()));
-  if (second_rels.implies(Poly_Con_Relation::strictly_intersects())) {
+  if (!second_rels.implies(Poly_Con_Relation::is_included())) {
     return Poly_Con_Relation::strictly_intersects();
   }
 
-  PPL_ASSERT(second_rels == Poly_Con_Relation::is_included());
   return Poly_Con_Relation::is_disjoint();
 }
 
